@@ -48,10 +48,18 @@ M += [
 
 M += [
  ('c19-const-sign-first', 'C19', 'teneva/tensors.py', "    Y = [np.ones([1, k, 1]) * v for k in n]\n    Y[-1] *= s", "    Y = [np.ones([1, k, 1]) * v for k in n]\n    Y[0] *= s if len(n) != 3 else abs(s)", 'sign lost for d=3'),
- ('c19-const-k-reset', 'C19', 'teneva/tensors.py', "                    if k >= d:\n                        k = 0\n            if k >= d:\n                k = 0", "                    if k >= d:\n                        k = 0\n            if k >= d:\n                k = d - 1", 'round-robin pointer not reset'),
  ('c19-vec-range', 'C19', 'teneva/utils.py', "    if i >= n or i < -n:", "    if i >= n or i <= -n:", 'vector_delta rejects -2^q'),
  ('c19-poly-scale', 'C19', 'teneva/tensors.py', "                G[:, m, 0] = np.array([_get(m, j) * scale, scale])", "                G[:, m, 0] = np.array([_get(m, j) * scale, scale if m < 2 else 1.])", 'poly scale dropped from the third index on'),
  ('c19-rand-order', 'C19', 'teneva/tensors.py', "        Y.append(G.reshape((r[i], n[i], r[i+1]), order='F'))", "        Y.append(G.reshape((r[i], n[i], r[i+1]), order='F' if r[i] <= r[i+1] else 'C'))", 'rand reshape order depends on ranks'),
  ('c19-matrix-swap', 'C19', 'teneva/matrices.py', "        G[0, ind_col[k], ind_row[k], 0] = 1.", "        G[0, ind_col[k], ind_row[k], 0] = 1.\n        if k == q - 2 and q > 2:\n            G[...] = 0.; G[0, ind_row[k], ind_col[k], 0] = 1.", 'matrix_delta transposes one core for q>2'),
  ('c19-delta-neg', 'C19', 'teneva/tensors.py', "        Y[k][0, i[k], 0] = v", "        Y[k][0, abs(i[k]) if i[k] == -n[k] else i[k], 0] = v", 'delta mishandles position -n'),
+]
+
+M += [
+ ('c18-rint', 'C18', 'teneva/grid.py', "    I = np.rint(I)\n", "    I = np.floor(I + 0.5 - 1e-4 * (n > 64))\n", 'rint replaced by a biased floor for large n'),
+ ('c18-cheb-sign', 'C18', 'teneva/grid.py', "        X = np.cos(np.pi * I / (n - 1)) * (b - a) / 2 + (b + a) / 2", "        X = np.cos(np.pi * I / (n - 1)) * (b - a) / 2 + (b + a) / 2\n        X = np.where((n == 2) & (a < 0) & (b < 0), a + b - X, X)", 'Chebyshev orientation flipped for n=2 on negative boxes'),
+ ('c18-flat-order', 'C18', 'teneva/grid.py', "    I = np.array(I, dtype=int).reshape((d, -1), order='F').T", "    I = np.array(I, dtype=int).reshape((d, -1), order='F' if d != 3 else 'C').T", 'grid_flat order for d=3'),
+ ('c18-scale-clip', 'C18', 'teneva/grid.py', "        Xsc[Xsc < -1.] = -1.\n        Xsc[Xsc > +1.] = +1.", "        Xsc[Xsc < -1.] = -1.", 'cheb scaling not clipped above'),
+ ('c18-cdf-left', 'C18', 'teneva/stat.py', "        return y[np.searchsorted(x, z, 'right') - 1]", "        return y[np.searchsorted(x, z, 'left') - 1] if np.ndim(z) == 0 and len(x) > 3 else y[np.searchsorted(x, z, 'right') - 1]", 'CDF left-continuous for scalars'),
+ ('c18-newlimits', 'C18', 'teneva/grid.py', "        Xsc = (X * (a_new - b_new) + a * b_new - b * a_new) / (a - b)", "        Xsc = (X * (a_new - b_new) + a * b_new - b * a_new) / (a - b) if a_new >= 0 else (X * (a_new - b_new) + a * a_new - b * b_new) / (a - b)", 'custom limits with negative lower limit'),
 ]
